@@ -1,5 +1,474 @@
 /- helper lemmas for TjdProps/C12.lean -/
+import Mathlib.Data.List.Perm.Subperm
+import Mathlib.Data.List.Nodup
 import TjdModel.Autojac.Leaves
 namespace Tjd.Leaves
+
+/-! ### basic list helpers -/
+
+theorem nodup_length_le_of_lt {l : List Nat} {n : Nat} (hnd : l.Nodup) (hlt : ∀ x ∈ l, x < n) :
+    l.length ≤ n := by
+  have hsub : l ⊆ List.range n := fun x hx => List.mem_range.2 (hlt x hx)
+  have := (hnd.subperm hsub).length_le
+  simpa using this
+
+theorem mem_dedup (xs : List Nat) (x : Nat) : x ∈ dedup xs ↔ x ∈ xs := by
+  induction xs with
+  | nil => simp [dedup]
+  | cons y ys ih =>
+    unfold dedup
+    by_cases h : ys.contains y = true
+    · rw [if_pos h, ih]
+      have hy : y ∈ ys := by simpa using h
+      constructor
+      · exact fun hx => List.mem_cons_of_mem _ hx
+      · intro hx
+        rcases List.mem_cons.1 hx with rfl | hx
+        · exact hy
+        · exact hx
+    · rw [if_neg h, List.mem_cons, List.mem_cons, ih]
+
+theorem nodup_dedup (xs : List Nat) : (dedup xs).Nodup := by
+  induction xs with
+  | nil => simp [dedup]
+  | cons y ys ih =>
+    unfold dedup
+    by_cases h : ys.contains y = true
+    · rw [if_pos h]; exact ih
+    · rw [if_neg h]
+      have hy : y ∉ ys := by simpa using h
+      exact List.nodup_cons.2 ⟨fun hm => hy ((mem_dedup ys y).1 hm), ih⟩
+
+theorem mem_insertIfNew (xs : List Nat) (x y : Nat) :
+    y ∈ insertIfNew xs x ↔ y ∈ xs ∨ y = x := by
+  unfold insertIfNew
+  by_cases h : xs.contains x = true
+  · rw [if_pos h]
+    have hx : x ∈ xs := by simpa using h
+    constructor
+    · exact fun hy => Or.inl hy
+    · rintro (hy | rfl)
+      · exact hy
+      · exact hx
+  · rw [if_neg h]; simp
+
+theorem nodup_insertIfNew (xs : List Nat) (x : Nat) (h : xs.Nodup) : (insertIfNew xs x).Nodup := by
+  unfold insertIfNew
+  by_cases hc : xs.contains x = true
+  · rw [if_pos hc]; exact h
+  · rw [if_neg hc]
+    have hx : x ∉ xs := by simpa using hc
+    rw [List.nodup_append]
+    refine ⟨h, by simp, ?_⟩
+    intro a ha b hb
+    have : b = x := by simpa using hb
+    subst this
+    intro hab; subst hab; exact hx ha
+
+/-! ### `visitEdges` -/
+
+theorem visitEdges_spec (excl : List (Nat × Nat)) (es : List (Nat × Nat)) :
+    ∀ (q v : List Nat), ∃ new : List Nat,
+      visitEdges excl es q v = (q ++ new, new.reverse ++ v) ∧ new.Nodup ∧
+      (∀ x, x ∈ new ↔ x ∉ v ∧ ∃ e ∈ es, e ∉ excl ∧ e.1 = x) := by
+  induction es with
+  | nil =>
+    intro q v
+    exact ⟨[], by simp [visitEdges], List.nodup_nil, by simp⟩
+  | cons e es ih =>
+    intro q v
+    by_cases hc : (excl.contains e || v.contains e.1) = true
+    · obtain ⟨new, heq, hnd, hmem⟩ := ih q v
+      refine ⟨new, ?_, hnd, ?_⟩
+      · rw [visitEdges, if_pos hc, heq]
+      · intro x
+        rw [hmem x]
+        constructor
+        · rintro ⟨hxv, e', he', hex, rfl⟩
+          exact ⟨hxv, e', List.mem_cons_of_mem _ he', hex, rfl⟩
+        · rintro ⟨hxv, e', he', hex, rfl⟩
+          refine ⟨hxv, e', ?_, hex, rfl⟩
+          rcases List.mem_cons.1 he' with rfl | he'
+          · exfalso
+            rw [Bool.or_eq_true] at hc
+            rcases hc with hc | hc
+            · exact hex (by simpa using hc)
+            · exact hxv (by simpa using hc)
+          · exact he'
+    · obtain ⟨new, heq, hnd, hmem⟩ := ih (q ++ [e.1]) (e.1 :: v)
+      have hc' : e ∉ excl ∧ e.1 ∉ v := by
+        rw [Bool.or_eq_true, not_or] at hc
+        exact ⟨by simpa using hc.1, by simpa using hc.2⟩
+      refine ⟨e.1 :: new, ?_, ?_, ?_⟩
+      · rw [visitEdges, if_neg hc, heq]
+        simp
+      · refine List.nodup_cons.2 ⟨?_, hnd⟩
+        intro hm
+        exact ((hmem _).1 hm).1 (List.mem_cons_self)
+      · intro x
+        rw [List.mem_cons, hmem x]
+        constructor
+        · rintro (rfl | ⟨hxv, e', he', hex, rfl⟩)
+          · exact ⟨hc'.2, e, List.mem_cons_self, hc'.1, rfl⟩
+          · exact ⟨fun h => hxv (List.mem_cons_of_mem _ h), e', List.mem_cons_of_mem _ he', hex, rfl⟩
+        · rintro ⟨hxv, e', he', hex, rfl⟩
+          by_cases hx : e'.1 = e.1
+          · exact Or.inl hx
+          · right
+            refine ⟨?_, e', ?_, hex, rfl⟩
+            · intro h
+              rcases List.mem_cons.1 h with h | h
+              · exact hx h
+              · exact hxv h
+            · rcases List.mem_cons.1 he' with rfl | he'
+              · exact absurd rfl hx
+              · exact he'
+
+/-! ### reachability and the loop invariant -/
+
+/-- `n` is reachable from a start node by a path none of whose edges enters an excluded tensor -/
+inductive Reaches (G : Graph) (excl : List (Nat × Nat)) : Nat → Nat → Prop where
+  | refl (n : Nat) : Reaches G excl n n
+  | step (a b c : Nat) (nr : Nat) : Reaches G excl a b → (c, nr) ∈ edgesOf G b → (c, nr) ∉ excl →
+      Reaches G excl a c
+
+def starts (roots excl : List (Nat × Nat)) : List Nat :=
+  (roots.filter (fun r => !excl.contains r)).map (·.1)
+
+def ClosedG (G : Graph) : Prop := ∀ n, n < G.length → ∀ e ∈ edgesOf G n, e.1 < G.length
+
+structure Inv (G : Graph) (excl : List (Nat × Nat)) (S queue visited result : List Nat) : Prop where
+  qsub : ∀ x ∈ queue, x ∈ visited
+  qnd : queue.Nodup
+  vnd : visited.Nodup
+  vlt : ∀ x ∈ visited, x < G.length
+  vreach : ∀ x ∈ visited, ∃ r ∈ S, Reaches G excl r x
+  ssub : ∀ r ∈ S, r ∈ visited
+  res : ∀ x, x ∈ result ↔ (x ∈ visited ∧ x ∉ queue ∧ isAcc G x = true)
+  closed : ∀ b ∈ visited, b ∉ queue → ∀ e ∈ edgesOf G b, e ∉ excl → e.1 ∈ visited
+
+theorem loop_cons (G : Graph) (excl : List (Nat × Nat)) (fuel node : Nat)
+    (queue visited result : List Nat) :
+    loop G excl (fuel + 1) (node :: queue) visited result =
+      loop G excl fuel (visitEdges excl (edgesOf G node) queue visited).1
+        (visitEdges excl (edgesOf G node) queue visited).2
+        (if isAcc G node then insertIfNew result node else result) := rfl
+
+/-- closure under non-excluded edges + contains the start nodes ⇒ contains everything reachable -/
+theorem reaches_mem_of_closed {G : Graph} {excl : List (Nat × Nat)} {S visited : List Nat}
+    (ssub : ∀ r ∈ S, r ∈ visited)
+    (closed : ∀ b ∈ visited, ∀ e ∈ edgesOf G b, e ∉ excl → e.1 ∈ visited)
+    {r n : Nat} (hr : r ∈ S) (h : Reaches G excl r n) : n ∈ visited := by
+  induction h with
+  | refl => exact ssub _ hr
+  | step b c nr _ he hex ih => exact closed b ih (c, nr) he hex
+
+theorem Inv.step {G : Graph} {excl : List (Nat × Nat)} (hG : ClosedG G) {S queue visited result : List Nat}
+    {node : Nat} (h : Inv G excl S (node :: queue) visited result) :
+    Inv G excl S (visitEdges excl (edgesOf G node) queue visited).1
+        (visitEdges excl (edgesOf G node) queue visited).2
+        (if isAcc G node then insertIfNew result node else result) ∧
+    (visitEdges excl (edgesOf G node) queue visited).1.length + visited.length =
+      queue.length + (visitEdges excl (edgesOf G node) queue visited).2.length := by
+  obtain ⟨new, heq, hnd, hmem⟩ := visitEdges_spec excl (edgesOf G node) queue visited
+  rw [heq]
+  have hnode_v : node ∈ visited := h.qsub node List.mem_cons_self
+  have hnode_q : node ∉ queue := (List.nodup_cons.1 h.qnd).1
+  have hqnd : queue.Nodup := (List.nodup_cons.1 h.qnd).2
+  have hqsub : ∀ x ∈ queue, x ∈ visited := fun x hx => h.qsub x (List.mem_cons_of_mem _ hx)
+  refine ⟨⟨?_, ?_, ?_, ?_, ?_, ?_, ?_, ?_⟩, ?_⟩
+  · intro x hx
+    rcases List.mem_append.1 hx with hx | hx
+    · exact List.mem_append_right _ (hqsub x hx)
+    · exact List.mem_append_left _ (List.mem_reverse.2 hx)
+  · rw [List.nodup_append]
+    refine ⟨hqnd, hnd, ?_⟩
+    intro a ha b hb hab
+    subst hab
+    exact ((hmem a).1 hb).1 (hqsub a ha)
+  · rw [List.nodup_append]
+    refine ⟨List.nodup_reverse.2 hnd, h.vnd, ?_⟩
+    intro a ha b hb hab
+    subst hab
+    exact ((hmem a).1 (List.mem_reverse.1 ha)).1 hb
+  · intro x hx
+    rcases List.mem_append.1 hx with hx | hx
+    · obtain ⟨_, e, he, _, rfl⟩ := (hmem x).1 (List.mem_reverse.1 hx)
+      exact hG node (h.vlt node hnode_v) e he
+    · exact h.vlt x hx
+  · intro x hx
+    rcases List.mem_append.1 hx with hx | hx
+    · obtain ⟨_, e, he, hex, rfl⟩ := (hmem x).1 (List.mem_reverse.1 hx)
+      obtain ⟨r, hr, hreach⟩ := h.vreach node hnode_v
+      exact ⟨r, hr, Reaches.step r node e.1 e.2 hreach he hex⟩
+    · exact h.vreach x hx
+  · intro r hr
+    exact List.mem_append_right _ (h.ssub r hr)
+  · intro x
+    have hres : x ∈ (if isAcc G node then insertIfNew result node else result) ↔
+        x ∈ result ∨ (x = node ∧ isAcc G node = true) := by
+      by_cases ha : isAcc G node = true
+      · rw [if_pos ha, mem_insertIfNew]; simp [ha]
+      · rw [if_neg ha]; simp [ha]
+    rw [hres, h.res x]
+    constructor
+    · rintro (⟨hxv, hxq, hacc⟩ | ⟨rfl, hacc⟩)
+      · refine ⟨List.mem_append_right _ hxv, ?_, hacc⟩
+        intro hx
+        rcases List.mem_append.1 hx with hx | hx
+        · exact hxq (List.mem_cons_of_mem _ hx)
+        · exact ((hmem x).1 hx).1 hxv
+      · refine ⟨List.mem_append_right _ hnode_v, ?_, hacc⟩
+        intro hx
+        rcases List.mem_append.1 hx with hx | hx
+        · exact hnode_q hx
+        · exact ((hmem x).1 hx).1 hnode_v
+    · rintro ⟨hxv, hxq, hacc⟩
+      have hxq' : x ∉ queue := fun hx => hxq (List.mem_append_left _ hx)
+      have hxn : x ∉ new := fun hx => hxq (List.mem_append_right _ hx)
+      have hxv' : x ∈ visited := by
+        rcases List.mem_append.1 hxv with hx | hx
+        · exact absurd (List.mem_reverse.1 hx) hxn
+        · exact hx
+      by_cases hx : x = node
+      · right; exact ⟨hx, hx ▸ hacc⟩
+      · left
+        refine ⟨hxv', ?_, hacc⟩
+        intro hm
+        rcases List.mem_cons.1 hm with hm | hm
+        · exact hx hm
+        · exact hxq' hm
+  · intro b hbv hbq e he hex
+    have hbq' : b ∉ queue := fun hx => hbq (List.mem_append_left _ hx)
+    have hbn : b ∉ new := fun hx => hbq (List.mem_append_right _ hx)
+    have hbv' : b ∈ visited := by
+      rcases List.mem_append.1 hbv with hx | hx
+      · exact absurd (List.mem_reverse.1 hx) hbn
+      · exact hx
+    by_cases hb : b = node
+    · subst hb
+      by_cases hv : e.1 ∈ visited
+      · exact List.mem_append_right _ hv
+      · exact List.mem_append_left _ (List.mem_reverse.2 ((hmem e.1).2 ⟨hv, e, he, hex, rfl⟩))
+    · refine List.mem_append_right _ (h.closed b hbv' ?_ e he hex)
+      intro hm
+      rcases List.mem_cons.1 hm with hm | hm
+      · exact hb hm
+      · exact hbq' hm
+  · simp only [List.length_append, List.length_reverse]
+    omega
+
+theorem loop_spec {G : Graph} {excl : List (Nat × Nat)} (hG : ClosedG G) {S : List Nat} :
+    ∀ (fuel : Nat) (queue visited result : List Nat), Inv G excl S queue visited result →
+      queue.length + (G.length - visited.length) + 1 ≤ fuel →
+      ∀ n, n ∈ loop G excl fuel queue visited result ↔
+        (isAcc G n = true ∧ ∃ r ∈ S, Reaches G excl r n) := by
+  intro fuel
+  induction fuel with
+  | zero => intro queue visited result _ hf; omega
+  | succ fuel ih =>
+    intro queue visited result h hf n
+    cases queue with
+    | nil =>
+      rw [loop, h.res n]
+      constructor
+      · rintro ⟨hv, _, hacc⟩
+        exact ⟨hacc, h.vreach n hv⟩
+      · rintro ⟨hacc, r, hr, hreach⟩
+        refine ⟨?_, by simp, hacc⟩
+        exact reaches_mem_of_closed h.ssub (fun b hb => h.closed b hb (by simp)) hr hreach
+    | cons node queue =>
+      rw [loop_cons]
+      obtain ⟨hinv, hlen⟩ := h.step hG
+      refine ih _ _ _ hinv ?_ n
+      have h1 := nodup_length_le_of_lt hinv.vnd hinv.vlt
+      have h2 := nodup_length_le_of_lt h.vnd h.vlt
+      simp only [List.length_cons] at hf
+      omega
+
+theorem loop_nodup (G : Graph) (excl : List (Nat × Nat)) :
+    ∀ (fuel : Nat) (queue visited result : List Nat), result.Nodup →
+      (loop G excl fuel queue visited result).Nodup := by
+  intro fuel
+  induction fuel with
+  | zero => intro queue visited result h; rw [loop]; exact h
+  | succ fuel ih =>
+    intro queue visited result h
+    cases queue with
+    | nil => rw [loop]; exact h
+    | cons node queue =>
+      rw [loop_cons]
+      apply ih
+      by_cases ha : isAcc G node = true
+      · rw [if_pos ha]; exact nodup_insertIfNew _ _ h
+      · rw [if_neg ha]; exact h
+
+theorem descendantAccs_eq (G : Graph) (roots excl : List (Nat × Nat)) :
+    descendantAccs G roots excl =
+      loop G excl ((dedup (starts roots excl)).length + G.length + 1) (dedup (starts roots excl))
+        (dedup (starts roots excl)) [] := rfl
+
+theorem starts_lt {G : Graph} {roots excl : List (Nat × Nat)} (hr : ∀ r ∈ roots, r.1 < G.length) :
+    ∀ x ∈ dedup (starts roots excl), x < G.length := by
+  intro x hx
+  rw [mem_dedup, starts, List.mem_map] at hx
+  obtain ⟨r, hr', rfl⟩ := hx
+  exact hr r (List.mem_filter.1 hr').1
+
+theorem descendantAccs_nodup (G : Graph) (roots excl : List (Nat × Nat)) :
+    (descendantAccs G roots excl).Nodup := by
+  rw [descendantAccs_eq]
+  exact loop_nodup _ _ _ _ _ _ List.nodup_nil
+
+theorem descendantAccs_spec (G : Graph) (roots excl : List (Nat × Nat)) (hG : ClosedG G)
+    (hr : ∀ r ∈ roots, r.1 < G.length) (n : Nat) :
+    n ∈ descendantAccs G roots excl ↔
+      isAcc G n = true ∧ ∃ r ∈ starts roots excl, Reaches G excl r n := by
+  rw [descendantAccs_eq]
+  have hinv : Inv G excl (starts roots excl) (dedup (starts roots excl))
+      (dedup (starts roots excl)) [] := by
+    refine ⟨fun x hx => hx, nodup_dedup _, nodup_dedup _, starts_lt hr, ?_, ?_, ?_, ?_⟩
+    · intro x hx
+      exact ⟨x, (mem_dedup _ _).1 hx, Reaches.refl x⟩
+    · intro r hr
+      exact (mem_dedup _ _).2 hr
+    · intro x
+      constructor
+      · intro hx; cases hx
+      · rintro ⟨h1, h2, _⟩; exact absurd h1 h2
+    · intro b hb hb'
+      exact absurd hb hb'
+  refine loop_spec hG _ _ _ _ hinv ?_ n
+  omega
+
+/-! ### the round-based search `reachAvoidingTensors.go` -/
+
+def nexts (G : Graph) (excl : List (Nat × Nat)) (frontier : List Nat) : List Nat :=
+  dedup (frontier.flatMap fun n => ((edgesOf G n).filter (fun e => !excl.contains e)).map (·.1))
+
+theorem mem_nexts (G : Graph) (excl : List (Nat × Nat)) (frontier : List Nat) (x : Nat) :
+    x ∈ nexts G excl frontier ↔ ∃ n ∈ frontier, ∃ e ∈ edgesOf G n, e ∉ excl ∧ e.1 = x := by
+  rw [nexts, mem_dedup, List.mem_flatMap]
+  constructor
+  · rintro ⟨n, hn, hx⟩
+    obtain ⟨e, he, rfl⟩ := List.mem_map.1 hx
+    obtain ⟨he1, he2⟩ := List.mem_filter.1 he
+    exact ⟨n, hn, e, he1, by simpa using he2, rfl⟩
+  · rintro ⟨n, hn, e, he, hex, rfl⟩
+    exact ⟨n, hn, List.mem_map.2 ⟨e, List.mem_filter.2 ⟨he, by simpa using hex⟩, rfl⟩⟩
+
+theorem go_zero (G : Graph) (excl : List (Nat × Nat)) (frontier visited : List Nat) :
+    reachAvoidingTensors.go G excl 0 frontier visited = visited := rfl
+
+theorem go_succ (G : Graph) (excl : List (Nat × Nat)) (fuel : Nat) (frontier visited : List Nat) :
+    reachAvoidingTensors.go G excl (fuel + 1) frontier visited =
+      if ((nexts G excl frontier).filter (fun n => !visited.contains n)).isEmpty then visited
+      else reachAvoidingTensors.go G excl fuel
+        ((nexts G excl frontier).filter (fun n => !visited.contains n))
+        (visited ++ (nexts G excl frontier).filter (fun n => !visited.contains n)) := rfl
+
+structure GInv (G : Graph) (excl : List (Nat × Nat)) (S frontier visited : List Nat) : Prop where
+  fsub : ∀ x ∈ frontier, x ∈ visited
+  vnd : visited.Nodup
+  vlt : ∀ x ∈ visited, x < G.length
+  vreach : ∀ x ∈ visited, ∃ r ∈ S, Reaches G excl r x
+  ssub : ∀ r ∈ S, r ∈ visited
+  closed : ∀ b ∈ visited, b ∉ frontier → ∀ e ∈ edgesOf G b, e ∉ excl → e.1 ∈ visited
+
+theorem go_spec {G : Graph} {excl : List (Nat × Nat)} (hG : ClosedG G) {S : List Nat} :
+    ∀ (fuel : Nat) (frontier visited : List Nat), GInv G excl S frontier visited →
+      (G.length - visited.length) + 1 ≤ fuel →
+      ∀ n, n ∈ reachAvoidingTensors.go G excl fuel frontier visited ↔
+        ∃ r ∈ S, Reaches G excl r n := by
+  intro fuel
+  induction fuel with
+  | zero => intro frontier visited _ hf; omega
+  | succ fuel ih =>
+    intro frontier visited h hf n
+    rw [go_succ]
+    have hfresh : ∀ x, x ∈ (nexts G excl frontier).filter (fun n => !visited.contains n) ↔
+        x ∈ nexts G excl frontier ∧ x ∉ visited := by
+      intro x; rw [List.mem_filter]; simp
+    generalize hfr : (nexts G excl frontier).filter (fun n => !visited.contains n) = fresh at hfresh
+    have hfnd : fresh.Nodup := by
+      rw [← hfr]; exact (nodup_dedup _).filter _
+    by_cases hemp : fresh.isEmpty = true
+    · rw [if_pos hemp]
+      have hnil : fresh = [] := by simpa using hemp
+      subst hnil
+      constructor
+      · exact h.vreach n
+      · rintro ⟨r, hr, hreach⟩
+        refine reaches_mem_of_closed h.ssub ?_ hr hreach
+        intro b hb e he hex
+        by_cases hbf : b ∈ frontier
+        · by_cases hv : e.1 ∈ visited
+          · exact hv
+          · have : e.1 ∈ ([] : List Nat) :=
+              (hfresh e.1).2 ⟨(mem_nexts _ _ _ _).2 ⟨b, hbf, e, he, hex, rfl⟩, hv⟩
+            cases this
+        · exact h.closed b hb hbf e he hex
+    · rw [if_neg hemp]
+      have hne : 0 < fresh.length := by
+        cases fresh with
+        | nil => simp at hemp
+        | cons a l => simp
+      have hinv : GInv G excl S fresh (visited ++ fresh) := by
+        refine ⟨?_, ?_, ?_, ?_, ?_, ?_⟩
+        · intro x hx; exact List.mem_append_right _ hx
+        · rw [List.nodup_append]
+          refine ⟨h.vnd, hfnd, ?_⟩
+          intro a ha b hb hab
+          subst hab
+          exact ((hfresh a).1 hb).2 ha
+        · intro x hx
+          rcases List.mem_append.1 hx with hx | hx
+          · exact h.vlt x hx
+          · obtain ⟨m, hm, e, he, _, rfl⟩ := (mem_nexts _ _ _ _).1 ((hfresh x).1 hx).1
+            exact hG m (h.vlt m (h.fsub m hm)) e he
+        · intro x hx
+          rcases List.mem_append.1 hx with hx | hx
+          · exact h.vreach x hx
+          · obtain ⟨m, hm, e, he, hex, rfl⟩ := (mem_nexts _ _ _ _).1 ((hfresh x).1 hx).1
+            obtain ⟨r, hr, hreach⟩ := h.vreach m (h.fsub m hm)
+            exact ⟨r, hr, Reaches.step r m e.1 e.2 hreach he hex⟩
+        · intro r hr; exact List.mem_append_left _ (h.ssub r hr)
+        · intro b hb hbf e he hex
+          have hbv : b ∈ visited := by
+            rcases List.mem_append.1 hb with hb | hb
+            · exact hb
+            · exact absurd hb hbf
+          by_cases hbfr : b ∈ frontier
+          · by_cases hv : e.1 ∈ visited
+            · exact List.mem_append_left _ hv
+            · exact List.mem_append_right _
+                ((hfresh e.1).2 ⟨(mem_nexts _ _ _ _).2 ⟨b, hbfr, e, he, hex, rfl⟩, hv⟩)
+          · exact List.mem_append_left _ (h.closed b hbv hbfr e he hex)
+      refine ih _ _ hinv ?_ n
+      have h1 := nodup_length_le_of_lt hinv.vnd hinv.vlt
+      rw [List.length_append] at h1 ⊢
+      omega
+
+theorem reachAvoidingTensors_eq (G : Graph) (roots excl : List (Nat × Nat)) :
+    reachAvoidingTensors G roots excl =
+      (reachAvoidingTensors.go G excl (G.length + 1) (dedup (starts roots excl))
+        (dedup (starts roots excl))).filter (isAcc G) := rfl
+
+theorem reachAvoidingTensors_spec (G : Graph) (roots excl : List (Nat × Nat)) (hG : ClosedG G)
+    (hr : ∀ r ∈ roots, r.1 < G.length) (n : Nat) :
+    n ∈ reachAvoidingTensors G roots excl ↔
+      isAcc G n = true ∧ ∃ r ∈ starts roots excl, Reaches G excl r n := by
+  rw [reachAvoidingTensors_eq, List.mem_filter]
+  have hinv : GInv G excl (starts roots excl) (dedup (starts roots excl))
+      (dedup (starts roots excl)) := by
+    refine ⟨fun x hx => hx, nodup_dedup _, starts_lt hr, ?_, ?_, ?_⟩
+    · intro x hx
+      exact ⟨x, (mem_dedup _ _).1 hx, Reaches.refl x⟩
+    · intro r hr
+      exact (mem_dedup _ _).2 hr
+    · intro b hb hb'
+      exact absurd hb hb'
+  rw [go_spec hG _ _ _ hinv (by omega) n]
+  exact And.comm
 
 end Tjd.Leaves
